@@ -170,7 +170,7 @@ def progress_or_raise(ctx, rep, rule):
                              "graph is reported cyclic, or jobs are dropped", trace(st))
     for st in ends:
         n += 1
-        good = False
+        good = st.facts.get(MEMBERS) is False      # no member at all: vacuously all yielded
         for k, v in st.facts.items():
             if k[0] == 'cmp' and LENM in (k[2], k[3]):
                 op = k[1]
